@@ -6,6 +6,7 @@ of every type, at depth 0 and below, under -P/-H/-L, with the starting point spe
 against (a) the extracted Printf model fed with the reference values and (b) the reference rendering
 itself; the path-valued directives against PrintfValue/PathModel."""
 import os
+import re
 import stat
 
 from lib import framework as fw
@@ -22,7 +23,7 @@ ASSUMPTIONS = [
     "time, user-name, group-name, %b %k %S %F %D %M directives are not exercised (outside the property)",
     "\\NNN above \\177 and '\\0' directly followed by a digit are outside the documented language used here",
 ]
-ESC = {"a": 7, "b": 8, "f": 12, "n": 10, "r": 13, "t": 9, "v": 11}
+ESC = {"a": 7, "b": 8, "f": 12, "n": 10, "r": 13, "t": 9, "v": 11, "0": 0}
 DIRS = "pfhHPdsniUGmyYl"
 LETTER = c13.LETTER
 
@@ -36,7 +37,7 @@ def gen_format(rng):
         elif r < 0.45:
             items.append(("e", rng.choice(list(ESC))))
         elif r < 0.5:
-            v = rng.randrange(1, 128)
+            v = rng.randrange(0, 128)
             items.append(("o", "%03o" % v))
         elif r < 0.53:
             items.append(("F",))
@@ -140,16 +141,24 @@ def run(ctx):
             ent = rng.choice(entries)
             # a loop link cannot be a followed entry
             items = gen_format(rng)
+            # the escape "\0" directly before a digit would read as (the start of) an octal escape
+            while any(a == ("e", "0") and show([b])[:1] in tuple("01234567") for a, b in zip(items, items[1:])):
+                items = gen_format(rng)
             cases.append((mode, root, ent, items))
-        il, ml, refs, keep = [], [], [], []
+        il, ml, refs, keep, allvals, ofiles = [], [], [], [], [], []
         for mode, root, ent, items in cases:
             vals = values_for(root, ent, mode, r_abs)
             if vals is None:
                 continue
+            allvals.append(vals)
             fmt = show(items)
             path = vals["p"]
-            args = ["-" + mode, root] + (["-mindepth", str(len(ent)), "-maxdepth", str(len(ent))]) + (["-path", path] if ent else []) + ["-printf", fmt]
+            # -fprintf FILE writes the same bytes to FILE (one case in twelve)
+            ofile = "fp%d.out" % len(il) if rng.random() < 0.08 else None
+            args = ["-" + mode, root] + (["-mindepth", str(len(ent)), "-maxdepth", str(len(ent))]) + (["-path", path] if ent else []) + \
+                   (["-fprintf", ofile, fmt] if ofile else ["-printf", fmt])
             il.append("find - %s %s" % (fw.hexs(forest.dir), xc.hexlist([a.encode() for a in args])))
+            ofiles.append(ofile)
             used = sorted({it[1] for it in items if it[0] == "d"})
             ml.append("printf - %s %s" % (cps(fmt), ";".join("%d:%s" % (ord(d), cps(vals[d])) for d in used) if used else "~"))
             refs.append(render_ref(items, vals))
@@ -157,10 +166,26 @@ def run(ctx):
         impl = xc.run_impl(il)
         model = fw.run_lines(fw.FUVM, ml)
         bad = []
-        for (mode, root, ent, items, fmt), i, m, ref in zip(keep, impl, model, refs):
+        # the numeric values of the reference are the digits C16_numbers speaks of (PrintfValue.render_num, extracted)
+        nums = sorted({(8 if d == "m" else 10, int(v[d])) if d != "m" else (8, int(v[d], 8)) for v in allvals for d in "snidUGm" if d in v})
+        rendered = fw.run_lines(fw.FUVM, ["pv num %d %d" % bn for bn in nums])
+        for (b, nval), text in zip(nums, rendered):
+            ctx.count(("render-num", b, nval), nval > 7, "numeric-rendering")
+            if text != (("%o" if b == 8 else "%d") % nval):
+                ctx.violation("render_num %d %d: model %r, reference %r" % (b, nval, text, ("%o" if b == 8 else "%d") % nval),
+                              {"property": "C16", "kind": "numeric-rendering", "base": b, "value": nval, "model": text})
+        for (mode, root, ent, items, fmt), i, m, ref, ofile in zip(keep, impl, model, refs, ofiles):
             code, out, err = wc.decode_find(i)
+            if ofile:
+                if out != b"":
+                    bad.append(("find -fprintf wrote to standard output", mode, root, ent, fmt, out.decode("utf-8", "replace"), "", err))
+                    continue
+                try:
+                    out = open(os.path.join(forest.dir, ofile.encode()), "rb").read()
+                except OSError:
+                    out = b"<file not created>"
             mo = None if not m.startswith("ok") else ("".join(chr(int(x)) for x in m[3:].split(".")) if len(m) > 3 and m[3:] != "-" else "")
-            ctx.count((mode, root, tuple(ent), fmt), any(it[0] == "d" for it in items), ["mode=" + mode, "depth=%d" % len(ent),
+            ctx.count((mode, root, tuple(ent), fmt), any(it[0] == "d" for it in items), ["mode=" + mode, "depth=%d" % len(ent), "action=%s" % ("fprintf" if ofile else "printf"),
                                                                                            "directives=%d" % sum(it[0] == "d" for it in items)])
             if mo != ref:
                 bad.append(("model-vs-reference", mode, root, ent, fmt, mo, ref, err))
@@ -184,14 +209,19 @@ def path_values(ctx, forest, names, r_abs, spellings):
     known finding included: it is a transcription)"""
     il, ml, keys = [], [], []
     for root in spellings + ["."]:
-        for ent in ([], ["dir"], ["dir", "inside"]):
-            if root == "." and ent:
-                continue
-            path = root + ("" if (not ent or root.endswith("/")) else "/") + "/".join(ent)
-            args = [root, "-mindepth", str(len(ent)), "-maxdepth", str(len(ent))] + (["-path", path] if ent else []) + ["-printf", "%f\\0%h\\0%H\\0%P\\0"]
-            il.append("find - %s %s" % (fw.hexs(forest.dir), xc.hexlist([a.encode() for a in args])))
-            ml.append("pv %s %d" % (fw.hexs(path.encode()), len(root.encode())))
-            keys.append((root, ent, path))
+        # every kind of entry the walk produces in its own way: directories, files, links the follow mode resolves, a dangling link (under -L
+        # walkdir reports it as an error that find turns back into an entry) and a link to a directory (entered under -L)
+        for ent in ([], ["dir"], ["dir", "inside"], ["lnowhere"], ["ldir"], ["lm00"], ["ldir", "inside"]):
+            for mode in ("-P", "-H", "-L"):
+                if root == "." and ent:
+                    continue
+                if ent == ["ldir", "inside"] and mode != "-L":
+                    continue
+                path = root + ("" if (not ent or root.endswith("/")) else "/") + "/".join(ent)
+                args = [mode, root, "-mindepth", str(len(ent)), "-maxdepth", str(len(ent))] + (["-path", path] if ent else []) + ["-printf", "%f\\0%h\\0%H\\0%P\\0"]
+                il.append("find - %s %s" % (fw.hexs(forest.dir), xc.hexlist([a.encode() for a in args])))
+                ml.append("pv %s %d" % (fw.hexs(path.encode()), len(root.encode())))
+                keys.append((mode + " " + root, ent, path))
     impl = xc.run_impl(il)
     model = fw.run_lines(fw.FUVM, ml)
     for (root, ent, path), i, m in zip(keys, impl, model):
